@@ -54,6 +54,13 @@ def _check_2d(mask_l, vals_flat, ctx, kinds=("array", "grid", "vector"), grid_va
                 ctx.equal(np.asarray(a.slim.native.slim), want_slim, "array2d/roundtrip", tag + " slim->native->slim")
                 ctx.equal(np.asarray(a.native.slim.native), want_native, "array2d/roundtrip", tag + " native->slim->native")
                 ctx.check(np.asarray(a).shape == ((h, w) if store_native else (n,)), "array2d/storage", tag + " stored shape")
+                # objects derived by arithmetic: their native form is still zero at masked positions and their slim
+                # form lists the unmasked values (additive arithmetic on a native-stored array leaves non-zero
+                # numbers at masked entries of the stored array, so .native must re-apply the mask)
+                for dname, y, f in (("add", a + 1.5, lambda v: v + 1.5), ("rsub", 2.0 - a, lambda v: 2.0 - v)):
+                    ctx.equal(np.asarray(y.slim), f(want_slim), "array2d/derived/slim", tag + " (%s).slim" % dname)
+                    ctx.equal(np.asarray(y.native), np.where(m, 0.0, f(vals)), "array2d/derived/native", tag + " (%s).native" % dname)
+                    ctx.equal(np.asarray(y.native.slim.native), np.where(m, 0.0, f(vals)), "array2d/derived/roundtrip", tag + " (%s) native->slim->native" % dname)
 
     if "grid" in kinds or "vector" in kinds:
         if grid_vals is None:
@@ -72,6 +79,9 @@ def _check_2d(mask_l, vals_flat, ctx, kinds=("array", "grid", "vector"), grid_va
                 ctx.equal(np.asarray(gr.native), want_gnative, "grid2d/native", tag + " .native")
                 ctx.equal(np.asarray(gr.slim.native.slim), want_gslim, "grid2d/roundtrip", tag)
                 ctx.equal(np.asarray(gr.native.slim.native), want_gnative, "grid2d/roundtrip", tag)
+                yg = gr + 1.5
+                ctx.equal(np.asarray(yg.slim), want_gslim + 1.5, "grid2d/derived/slim", tag + " (add).slim")
+                ctx.equal(np.asarray(yg.native), np.where(m[:, :, None], 0.0, g + 1.5), "grid2d/derived/native", tag + " (add).native")
     if "vector" in kinds:
         base_grid = aa.Grid2D.from_mask(mask=mask)
         for given in ("native", "slim"):
@@ -83,6 +93,9 @@ def _check_2d(mask_l, vals_flat, ctx, kinds=("array", "grid", "vector"), grid_va
                 ctx.equal(np.asarray(v.native), want_gnative, "vector2d/native", tag + " .native")
                 ctx.equal(np.asarray(v.slim.native.slim), want_gslim, "vector2d/roundtrip", tag)
                 ctx.equal(np.asarray(v.native.slim.native), want_gnative, "vector2d/roundtrip", tag)
+                yv = v + 1.5
+                ctx.equal(np.asarray(yv.slim), want_gslim + 1.5, "vector2d/derived/slim", tag + " (add).slim")
+                ctx.equal(np.asarray(yv.native), np.where(m[:, :, None], 0.0, g + 1.5), "vector2d/derived/native", tag + " (add).native")
 
     # index lists published by the mask
     di = mask.derive_indexes
